@@ -258,6 +258,26 @@ def codec_model(res, work):
         raise MachineryError("TLC reports a RoundTrip violation that no probe reproduces")
 
 
+def deep_trees(res):
+    """trees the parser produces for deeply nested expressions must round-trip as well"""
+    import ahb  # noqa: F401
+    from ahbicht.expressions.condition_expression_parser import parse_condition_expression_to_tree
+    from ahbicht.json_serialization.tree_schema import TreeSchema
+    for depth in (30, 45, 60, 120):
+        expr = "".join(f"[{i}] U (" for i in range(1, depth)) + f"[{depth}]" + ")" * (depth - 1)
+        tree = parse_condition_expression_to_tree(expr)
+        res.count("round_trips")
+        try:
+            back = roundtrip(TreeSchema, tree)
+            if back != tree:
+                res.violation(f"round trip of the tree of an expression nested {depth} levels deep changed the tree", {"kind": "deep-tree", "depth": depth})
+        except RecursionError:
+            res.violation(f"TreeSchema cannot serialise/load the tree of an expression nested {depth} levels deep (RecursionError)",
+                          {"kind": "deep-tree", "depth": depth}, match_key="treeschema-recursion-deep-tree")
+        except BaseException as e:  # pylint:disable=broad-except
+            res.violation(f"TreeSchema on the tree of an expression nested {depth} levels deep raised {type(e).__name__}", {"kind": "deep-tree", "depth": depth})
+
+
 def run():
     from c02 import merge
     res = Result(PID)
@@ -286,6 +306,7 @@ def run():
     jobs += [("keys", str(d3), i, 16, seed(), 1 if thorough else 2) for i in range(16)]
     with mp.get_context("fork").Pool(16) as pool:
         merge(res, pool.map(_worker, jobs, chunksize=1))
+    deep_trees(res)
     res.coverage["traces_validated_against_impl"] = res.coverage.get("round_trips", 0)
     res.coverage["evaluations"] = res.coverage.get("evaluations", 0) + res.coverage.get("round_trips", 0)
     res.coverage["exhaustive"] = False
